@@ -76,9 +76,15 @@ def build(d):
         return out
     if "enum" in d:
         return registry()[d["enum"]][d["name"]]
+    if "np" in d:
+        return getattr(np, d["np"])(d["v"])
     cls = d["cls"]
     args = {k: build(v) for k, v in d["args"].items()}
     R = registry()
+    if d.get("via") == "alt":
+        alt = build_alt(cls, args)
+        if alt is not None:
+            return alt
     if cls == "LaneletNetwork":
         extra = {k: args.pop(k, []) for k in ("lanelets", "intersections", "traffic_signs", "traffic_lights", "areas")}
         net = R[cls](**args)
@@ -105,6 +111,60 @@ def build(d):
                     sc.add_objects(o)
         return sc
     return R[cls](**args)
+
+
+ALT_CLASSES = ["Scenario", "LaneletNetwork", "PlanningProblemSet", "CustomState", "SignalState"] + \
+    [c for c in STATE_CLASSES if c != "CustomState"]
+
+
+def build_alt(cls, args):
+    """the rarely used entry points: list form of add_objects, create_from_lanelet_list, add_planning_problem, an empty
+    state / signal state filled attribute by attribute"""
+    R = registry()
+    if cls == "Scenario":
+        extra = {k: args.pop(k, _SENTINEL) for k in ("lanelet_network", "static_obstacles", "dynamic_obstacles",
+                                                     "environment_obstacle", "phantom_obstacle")}
+        sc = R[cls](**args)
+        if extra["lanelet_network"] is not _SENTINEL:
+            sc.replace_lanelet_network(extra["lanelet_network"])
+        objs = []
+        for k in ("static_obstacles", "dynamic_obstacles", "environment_obstacle", "phantom_obstacle"):
+            if extra[k] is not _SENTINEL:
+                objs += list(extra[k])
+        sc.add_objects(objs)  # one call with the whole list, all obstacle kinds mixed
+        return sc
+    if cls == "LaneletNetwork":
+        extra = {k: args.pop(k, []) for k in ("lanelets", "intersections", "traffic_signs", "traffic_lights", "areas")}
+        net = R[cls].create_from_lanelet_list(list(extra["lanelets"]), cleanup_ids=False)
+        if "information" in args:
+            net.information = args["information"]
+        for s in extra["traffic_signs"]:
+            net.add_traffic_sign(s, set())
+        for s in extra["traffic_lights"]:
+            net.add_traffic_light(s, set())
+        for s in extra["areas"]:
+            net.add_area(s, set())
+        for s in extra["intersections"]:
+            net.add_intersection(s)
+        return net
+    if cls == "PlanningProblemSet":
+        pps = R[cls]()
+        for p in args.get("planning_problem_list") or []:
+            pps.add_planning_problem(p)
+        return pps
+    if cls == "CustomState":
+        st = R[cls](time_step=args["time_step"]) if "time_step" in args else R[cls]()
+        for k, v in args.items():
+            if k != "time_step":
+                st.add_attribute(k)
+                st.set_value(k, v)
+        return st
+    if cls == "SignalState" or cls in STATE_CLASSES:
+        st = R[cls]()
+        for k, v in args.items():
+            setattr(st, k, v)
+        return st
+    return None
 
 
 # ------------------------------------------------------------------------------------------------ types
@@ -141,7 +201,7 @@ class Real(T):
             v = r.uniform(self.lo, self.hi)
         else:
             # large magnitude next to small ones in one array switches numpy's printing to exponent format
-            v = r.choice([1000.0, 1024.5, 2500.25, 100000.0]) + r.randint(0, 64) / 16
+            v = r.choice([1000.0, 1024.5, 2500.25, 100000.0, 250000.5, 999999.25]) + r.randint(0, 64) / 16
             if v > self.hi and self.hi < 1000:
                 v = self.hi
         v = min(max(float(v), self.lo), self.hi)
@@ -171,7 +231,7 @@ class IntT(T):
         self.lo, self.hi = lo, hi
 
     def gen(self, r, d=0):
-        return r.randint(self.lo, self.hi)
+        return self.lo if r.random() < 0.08 else r.randint(self.lo, self.hi)  # the smallest admissible value (id 0) regularly
 
     def perturb(self, r, v, d=0):
         while True:
@@ -793,10 +853,10 @@ def _mk_obstacles():
         P("initial_center_lanelet_ids", Opt(IdSet(0, 3)), True), P("initial_shape_lanelet_ids", Opt(IdSet(0, 3)), True),
         P("initial_signal_state", Opt(ObjT("SignalState")), True), P("signal_series", Opt(ListT(ObjT("SignalState"), 0, 2)), True)]
     S["StaticObstacle"] = Spec("StaticObstacle", [
-        P("obstacle_id", IntT(1, 900)), P("obstacle_type", EnumT("ObstacleType", OBST_TYPES)), P("obstacle_shape", ObjT(*SHAPES)),
+        P("obstacle_id", IntT(0, 900)), P("obstacle_type", EnumT("ObstacleType", OBST_TYPES)), P("obstacle_shape", ObjT(*SHAPES)),
         P("initial_state", InitialStateT())] + common_tail)
     S["DynamicObstacle"] = Spec("DynamicObstacle", [
-        P("obstacle_id", IntT(1, 900)), P("obstacle_type", EnumT("ObstacleType", OBST_TYPES)), P("obstacle_shape", ObjT(*SHAPES)),
+        P("obstacle_id", IntT(0, 900)), P("obstacle_type", EnumT("ObstacleType", OBST_TYPES)), P("obstacle_shape", ObjT(*SHAPES)),
         P("initial_state", InitialStateT()),
         P("prediction", Opt(ObjT("TrajectoryPrediction", "SetBasedPrediction")), True)] + common_tail + [
         P("initial_meta_information_state", Opt(ObjT("MetaInformationState")), True),
@@ -806,9 +866,9 @@ def _mk_obstacles():
         P("signal_history", Opt(ListT(ObjT("SignalState"), 0, 2)), True),
         P("center_lanelet_ids_history", Opt(ListT(IdSet(0, 3), 0, 2)), True),
         P("shape_lanelet_ids_history", Opt(ListT(IdSet(0, 3), 0, 2)), True)])
-    S["PhantomObstacle"] = Spec("PhantomObstacle", [P("obstacle_id", IntT(1, 900)), P("prediction", Opt(ObjT("SetBasedPrediction")), True)])
+    S["PhantomObstacle"] = Spec("PhantomObstacle", [P("obstacle_id", IntT(0, 900)), P("prediction", Opt(ObjT("SetBasedPrediction")), True)])
     S["EnvironmentObstacle"] = Spec("EnvironmentObstacle", [
-        P("obstacle_id", IntT(1, 900)), P("obstacle_type", EnumT("ObstacleType", ["BUILDING", "PILLAR", "MEDIAN_STRIP", "UNKNOWN"])),
+        P("obstacle_id", IntT(0, 900)), P("obstacle_type", EnumT("ObstacleType", ["BUILDING", "PILLAR", "MEDIAN_STRIP", "UNKNOWN"])),
         P("obstacle_shape", ObjT(*SHAPES))])
 
 
@@ -824,7 +884,7 @@ def _gen_lanelet(r, d, lid=None):
         "left_vertices": {"nd": [[x, y0 + w + o] for x, o in zip(xs, wob)]},
         "center_vertices": {"nd": [[x, y0 + o] for x, o in zip(xs, wob)]},
         "right_vertices": {"nd": [[x, y0 - w + o] for x, o in zip(xs, wob)]},
-        "lanelet_id": lid if lid is not None else r.randint(1, 900),
+        "lanelet_id": lid if lid is not None else (0 if r.random() < 0.08 else r.randint(0, 900)),
     }
     sp = SPECS["Lanelet"]
     all_defaults = r.random() < 0.2
@@ -861,12 +921,12 @@ def _mk_network():
                                       P("traffic_sign_ref", Opt(IdSet(0, 3)), True), P("traffic_light_ref", Opt(IdSet(0, 3)), True)])
     S["Lanelet"] = Spec("Lanelet", [
         P("left_vertices", Arr((2, 4))), P("center_vertices", Arr((2, 4))), P("right_vertices", Arr((2, 4))),
-        P("lanelet_id", IntT(1, 900)),
-        P("predecessor", Opt(ListT(IntT(1, 900), 0, 3, key=lambda e: e), 0.2), True),
-        P("successor", Opt(ListT(IntT(1, 900), 0, 3, key=lambda e: e), 0.2), True),
-        P("adjacent_left", Opt(IntT(1, 900)), True, getter="adj_left"),
+        P("lanelet_id", IntT(0, 900)),
+        P("predecessor", Opt(ListT(IntT(0, 900), 0, 3, key=lambda e: e), 0.2), True),
+        P("successor", Opt(ListT(IntT(0, 900), 0, 3, key=lambda e: e), 0.2), True),
+        P("adjacent_left", Opt(IntT(0, 900)), True, getter="adj_left"),
         P("adjacent_left_same_direction", Opt(BoolT(), 0.1), True, getter="adj_left_same_direction"),
-        P("adjacent_right", Opt(IntT(1, 900)), True, getter="adj_right"),
+        P("adjacent_right", Opt(IntT(0, 900)), True, getter="adj_right"),
         P("adjacent_right_same_direction", Opt(BoolT(), 0.1), True, getter="adj_right_same_direction"),
         P("line_marking_left_vertices", EnumT("LineMarking"), True), P("line_marking_right_vertices", EnumT("LineMarking"), True),
         P("stop_line", Opt(ObjT("StopLine")), True),
@@ -885,7 +945,7 @@ def _mk_network():
         P("traffic_sign_element_id", EnumT("TrafficSignIDGermany", signs)),
         P("additional_values", ListT(StrT("10", "20", "30.5", "50", "x"), 0, 2, key=lambda e: e), True)])
     S["TrafficSign"] = Spec("TrafficSign", [
-        P("traffic_sign_id", IntT(1, 900)),
+        P("traffic_sign_id", IntT(0, 900)),
         P("traffic_sign_elements", ListT(ObjT("TrafficSignElement"), 1, 3, key=lambda e: e["args"]["traffic_sign_element_id"]["name"])),
         P("first_occurrence", IdSet(0, 3)), P("position", Arr()), P("virtual", BoolT(), True)])
     S["TrafficLightCycleElement"] = Spec("TrafficLightCycleElement", [P("state", EnumT("TrafficLightState")), P("duration", IntT(1, 30))])
@@ -893,22 +953,22 @@ def _mk_network():
         P("cycle_elements", Opt(ListT(ObjT("TrafficLightCycleElement"), 0, 4), 0.1), True), P("time_offset", IntT(0, 20), True),
         P("active", BoolT(), True)])
     S["TrafficLight"] = Spec("TrafficLight", [
-        P("traffic_light_id", IntT(1, 900)), P("position", Arr()), P("traffic_light_cycle", Opt(ObjT("TrafficLightCycle")), True),
+        P("traffic_light_id", IntT(0, 900)), P("position", Arr()), P("traffic_light_cycle", Opt(ObjT("TrafficLightCycle")), True),
         P("color", Opt(ListT(EnumT("TrafficLightState"), 0, 3, key=lambda e: e["name"]), 0.2), True), P("active", BoolT(), True),
         P("direction", EnumT("TrafficLightDirection"), True), P("shape", Opt(ObjT("Rectangle")), True)])
     S["IntersectionIncomingElement"] = Spec("IntersectionIncomingElement", [
-        P("incoming_id", IntT(1, 900)), P("incoming_lanelets", Opt(IdSet(0, 3), 0.1), True),
+        P("incoming_id", IntT(0, 900)), P("incoming_lanelets", Opt(IdSet(0, 3), 0.1), True),
         P("successors_right", Opt(IdSet(0, 3), 0.2), True), P("successors_straight", Opt(IdSet(0, 3), 0.2), True),
-        P("successors_left", Opt(IdSet(0, 3), 0.2), True), P("left_of", Opt(IntT(1, 900)), True)])
+        P("successors_left", Opt(IdSet(0, 3), 0.2), True), P("left_of", Opt(IntT(0, 900)), True)])
     S["Intersection"] = Spec("Intersection", [
-        P("intersection_id", IntT(1, 900)),
+        P("intersection_id", IntT(0, 900)),
         P("incomings", ListT(ObjT("IntersectionIncomingElement"), 1, 3, key=lambda e: e["args"]["incoming_id"])),
         P("crossings", Opt(IdSet(0, 3), 0.2), True)])
     S["AreaBorder"] = Spec("AreaBorder", [
-        P("area_border_id", IntT(1, 900)), P("border_vertices", Arr((2, 4))),
-        P("adjacent", Opt(ListT(IntT(1, 900), 0, 3, key=lambda e: e)), True), P("line_marking", Opt(EnumT("LineMarking")), True)])
+        P("area_border_id", IntT(0, 900)), P("border_vertices", Arr((2, 4))),
+        P("adjacent", Opt(ListT(IntT(0, 900), 0, 3, key=lambda e: e)), True), P("line_marking", Opt(EnumT("LineMarking")), True)])
     S["Area"] = Spec("Area", [
-        P("area_id", IntT(1, 900)), P("border", Opt(ListT(ObjT("AreaBorder"), 0, 2, key=lambda e: e["args"]["area_border_id"]), 0.2), True),
+        P("area_id", IntT(0, 900)), P("border", Opt(ListT(ObjT("AreaBorder"), 0, 2, key=lambda e: e["args"]["area_border_id"]), 0.2), True),
         P("area_types", Opt(EnumSet("AreaType"), 0.2), True)])
     idk = lambda k: (lambda e: e["args"][k])
     S["LaneletNetwork"] = Spec("LaneletNetwork", [
@@ -991,7 +1051,7 @@ def _gen_scenario(r, d):
 
     def fresh():
         while True:
-            i = r.randint(1, 5000)
+            i = 0 if (not used and r.random() < 0.3) else r.randint(0, 5000)
             if i not in used:
                 used.add(i)
                 return i
@@ -1043,8 +1103,8 @@ def _mk_planning():
     S = SPECS
     S["GoalRegion"] = Spec("GoalRegion", [
         P("state_list", ListT(GoalStateT(), 1, 3)),
-        P("lanelets_of_goal_position", Opt(DictT(IntT(0, 3), ListT(IntT(1, 900), 0, 3, key=lambda e: e), 0, 2), 0.5), True)])
-    S["PlanningProblem"] = Spec("PlanningProblem", [P("planning_problem_id", IntT(1, 900)), P("initial_state", InitialStateT(full=True)),
+        P("lanelets_of_goal_position", Opt(DictT(IntT(0, 3), ListT(IntT(0, 900), 0, 3, key=lambda e: e), 0, 2), 0.5), True)])
+    S["PlanningProblem"] = Spec("PlanningProblem", [P("planning_problem_id", IntT(0, 900)), P("initial_state", InitialStateT(full=True)),
                                                     P("goal_region", ObjT("GoalRegion"), getter="goal")])
     S["PlanningProblemSet"] = Spec("PlanningProblemSet", [
         P("planning_problem_list", Opt(ListT(ObjT("PlanningProblem"), 0, 3, key=lambda e: e["args"]["planning_problem_id"]), 0.1), True,
@@ -1154,6 +1214,8 @@ def encode(v, sort_sets=False):
         return {"c": "SignalState", "f": [encode(getattr(v, g), sort_sets) if hasattr(v, g) else ABSENT for g in getters(spec)]}
     if spec.name == "PlanningProblemSet":
         return {"c": spec.family, "f": [encode(list(v.planning_problem_dict.values()), sort_sets)]}
+    if spec.name == "Scenario":  # scenario.py:597-636 compares and hashes str(dt), not dt
+        return {"c": spec.family, "f": [{"s": str(v.dt)} if g == "dt" else encode(getattr(v, g), sort_sets) for g in getters(spec)]}
     return {"c": spec.family, "f": [encode(getattr(v, g), sort_sets) for g in getters(spec)]}
 
 
